@@ -588,12 +588,28 @@ def record_rp(sc):
                                    np.array(r["lim"], dtype=float) / MICRO) for r in sc["regs"]]
     funcs = [make_objective(a, eps) for a in sc["a"]]
     prior = StubPrior(D)
+    recut = sc.get("recut", 0)          # the posterior is built with ANOTHER cut-off, used, and then reset to eps (public reset_eps_cutoff)
     post = RomcPosterior(regions, funcs, funcs, [None] * N, [None] * N, list(range(N)), bool(sc["surr"]), prior,
                          np.full(D, -PRIOR_SUPPORT), np.full(D, PRIOR_SUPPORT),
                          # eps_filter and eps_region differ from the cut-off (the density and the weights are defined by the
                          # cut-off alone); integer-valued distances: 2 above / 1 below the cut-off are different outcomes
-                         float(eps + 2), float(max(0, eps - 1)) if sc.get("eps_mode", 0) else float(eps + 2), float(eps))
+                         float(eps + 2), float(max(0, eps - 1)) if sc.get("eps_mode", 0) else float(eps + 2), float(max(0, eps + recut)))
     pts = [np.array(x, dtype=np.int64) for x in sc["pts"]]
+    if recut:
+        # history on one posterior object: every point is evaluated under the first cut-off (single and batched, a sample drawn),
+        # then the cut-off is reset: what follows is defined by the NEW cut-off alone
+        try:
+            with time_limit(20), quiet():
+                for xi in pts:
+                    post._pdf_unnorm_single_point(xi.astype(float) / MICRO)
+                if pts:
+                    post.pdf_unnorm_batched(np.array([xi.astype(float) / MICRO for xi in pts]))
+                for (n2, seed) in sc["samples"][:1]:
+                    post.sample(n2, seed=seed)
+        except BaseException as ex:
+            if isinstance(ex, KeyboardInterrupt):
+                raise
+        post.reset_eps_cutoff(float(eps))
 
     def at(xi):
         x = xi.astype(float) / MICRO
@@ -651,6 +667,15 @@ def record_rp(sc):
 
 
 def rp_scenarios(ctx):
+    out = _rp_scenarios(ctx)
+    rnd = random.Random(ctx.seed * 32452843 + 5)
+    for sc in out:
+        if rnd.random() < 0.3:
+            sc["recut"] = rnd.choice([-2, -1, 1, 2, 3])
+    return out
+
+
+def _rp_scenarios(ctx):
     rnd = random.Random(ctx.seed * 15485863 + 3)
     out = []
     n = 70 if ctx.quick else 600
